@@ -1166,6 +1166,86 @@ theorem ecma_accepted_monotone (F : Fns Rat) (k : EcmaConsts Rat) (s s' : Ecma R
     obtain ⟨_, _, hanc, _, _⟩ := updateAsParent_sigma F k s u _ zz y hne hu
     exact ⟨a, by show u.anc.getLast? = some a; rw [hanc]; exact ha, le_refl _⟩
 
+/-! ### rank invariance of ElitistCMA (both settings of `activeUpdate()`) -/
+
+/-- the state of a run on `φ ∘ f`: the history of accepted fitness values and the reported value are relabelled,
+everything else (step size, success probability, path, Cholesky factor, points) is the same -/
+def ecmaRelabel (φ : Rat → Rat) (s : Ecma Rat) : Ecma Rat := { s with anc := s.anc.map φ, bestValue := φ s.bestValue }
+
+theorem lt_iff_of_orderPreserving (φ : Rat → Rat) (hφ : OrderPreserving φ) (a b : Rat) : a < b ↔ φ a < φ b := by
+  have h := hφ b a
+  rw [← not_le, ← not_le]
+  constructor
+  · intro h1 h2; exact h1 (of_decide_eq_true (h ▸ decide_eq_true h2))
+  · intro h1 h2; exact h1 (of_decide_eq_true (h ▸ decide_eq_true h2))
+
+theorem le_iff_of_orderPreserving (φ : Rat → Rat) (hφ : OrderPreserving φ) (a b : Rat) : a ≤ b ↔ φ a ≤ φ b := by
+  have h := hφ a b
+  constructor
+  · intro h1; exact of_decide_eq_true (h ▸ decide_eq_true h1)
+  · intro h1; exact of_decide_eq_true (h.symm ▸ decide_eq_true h1)
+
+/-- the three-way success rule only compares the offspring's fitness with entries of the history -/
+theorem classify_relabel (φ : Rat → Rat) (hφ : OrderPreserving φ) (active : Bool) (anc : List Rat) (fp : Rat) :
+    classify active (anc.map φ) (φ fp) = classify active anc fp := by
+  unfold classify
+  rw [List.getLast?_map, List.head?_map]
+  cases h1 : anc.getLast? <;> cases h2 : anc.head? <;>
+    simp only [Option.map_none, Option.map_some, ← le_iff_of_orderPreserving φ hφ, ← lt_iff_of_orderPreserving φ hφ]
+
+theorem updateAsOffspring_relabel (F : Fns Rat) (k : EcmaConsts Rat) (φ : Rat → Rat) (s : Ecma Rat) (y : Vec Rat) :
+    updateAsOffspring F k (ecmaRelabel φ s) y = (updateAsOffspring F k s y).map (ecmaRelabel φ) := by
+  unfold updateAsOffspring
+  simp only [ecmaRelabel, Option.map_map]
+  rfl
+
+theorem updateAsParent_relabel (F : Fns Rat) (k : EcmaConsts Rat) (φ : Rat → Rat) (s : Ecma Rat) (succ : Success) (zz : Rat) (y : Vec Rat) :
+    updateAsParent F k (ecmaRelabel φ s) succ zz y = (updateAsParent F k s succ zz y).map (ecmaRelabel φ) := by
+  unfold updateAsParent
+  simp only [ecmaRelabel]
+  repeat' split
+  all_goals first | rfl | (simp only [Option.map_map]; rfl)
+
+/-- **ecma_step_rank_invariant**: one `ElitistCMA::step` on `φ ∘ f` (offspring fitness `φ fp`, `φ fu`) from the relabelled
+state is the relabelled step on `f`, for every order-preserving `φ` and both settings of `activeUpdate()` -/
+theorem ecma_step_rank_invariant (F : Fns Rat) (k : EcmaConsts Rat) (φ : Rat → Rat) (hφ : OrderPreserving φ)
+    (s : Ecma Rat) (y : Vec Rat) (zz fp fu : Rat) :
+    ecmaStep F k (ecmaRelabel φ s) y zz (φ fp) (φ fu) = (ecmaStep F k s y zz fp fu).map (ecmaRelabel φ) := by
+  unfold ecmaStep
+  have hc : classify k.active (ecmaRelabel φ s).anc (φ fp) = classify k.active s.anc fp := classify_relabel φ hφ k.active s.anc fp
+  simp only [hc]
+  cases hcl : classify k.active s.anc fp
+  · simp only [updateAsOffspring_relabel, Option.map_map]
+    congr 1
+    funext u
+    simp [ecmaRelabel, List.map_drop]
+  · simp only [updateAsParent_relabel, Option.map_map]
+    congr 1
+  · simp only [updateAsParent_relabel, Option.map_map]
+    congr 1
+
+/-- **ecma_rank_invariance**: whole runs.  On `φ ∘ f` with the same samples ElitistCMA visits the same points with the same
+step sizes and covariance factors; the reported value and the history are the `φ`-images. -/
+theorem ecma_rank_invariance (F : Fns Rat) (k : EcmaConsts Rat) (φ : Rat → Rat) (hφ : OrderPreserving φ)
+    (inputs : List (EcmaInput Rat)) (s : Ecma Rat) :
+    ecmaRun F k (ecmaRelabel φ s) (inputs.map fun i => { i with fp := φ i.fp, fu := φ i.fu }) =
+      (ecmaRun F k s inputs).map (ecmaRelabel φ) := by
+  induction inputs generalizing s with
+  | nil => simp [ecmaRun]
+  | cons i rest ih =>
+    simp only [List.map_cons, ecmaRun, ecma_step_rank_invariant F k φ hφ]
+    cases h : ecmaStep F k s i.y i.zz i.fp i.fu with
+    | none => simp
+    | some u => simp [ih u]
+
+/-- the relabelled initial state is the initial state of the run on `φ ∘ f` -/
+theorem ecmaInit_relabel (φ : Rat → Rat) (sigma pSucc : Rat) (n : Nat) (L : List (Vec Rat)) (x0 : Vec Rat) (fp fu : Rat) :
+    ecmaRelabel φ (ecmaInit sigma pSucc n L x0 fp fu) = ecmaInit sigma pSucc n L x0 (φ fp) (φ fu) := by
+  simp [ecmaRelabel, ecmaInit]
+
+example : OrderPreserving (fun x : Rat => 2 * x) := by
+  intro a b; simp
+
 /-- non-vacuity with the active update switched OFF: a successful step from the initial state -/
 def k0 : EcmaConsts Rat := { pTarget := 2/11, dStep := 3/2, cP := 1/12, cPath := 2/3, cCov := 2/7, cUnlearn := 1/5, threshold := 11/25, active := false }
 example : (ecmaRun idFns k0 (ecmaInit 1 (2/11) 1 [[1]] [2] 4 4) [⟨[-1], 1, 1, 1⟩, ⟨[1], 1, 3, 3⟩]).isSome = true := by decide +kernel
